@@ -1,5 +1,6 @@
 //! `harness seqcase`: runs one case (text on stdin) against an in-process
-//! deltio gRPC server on a paused `current_thread` runtime.
+//! deltio gRPC server on a paused `current_thread` runtime (push mode, see
+//! /verif/docs/FORMAT-push.md: real clock plus a scripted local HTTP endpoint).
 
 use crate::util::{hex, hexs, panic_message, Toks};
 use deltio::pubsub_proto::publisher_client::PublisherClient;
@@ -12,7 +13,7 @@ use deltio::pubsub_proto::{
 };
 use deltio::subscriptions::SubscriptionName;
 use deltio::Deltio;
-use std::collections::{BTreeMap, HashMap};
+use std::collections::{BTreeMap, BTreeSet, HashMap, VecDeque};
 use std::future::Future;
 use std::panic::AssertUnwindSafe;
 use std::sync::{Arc, Mutex};
@@ -180,20 +181,28 @@ pub fn run_case(case: &Case) -> Vec<String> {
         .unwrap_or(true);
     let lines: Arc<Mutex<Vec<String>>> = Arc::new(Mutex::new(Vec::new()));
 
-    let seed: Option<u64> = case
-        .ops
-        .first()
+    // Push mode (first op line `MODE push`): real clock; the SEED line, if any, follows it.
+    let push_mode = case.ops.first().map(|l| l == "MODE push").unwrap_or(false);
+    let seed_line = if push_mode {
+        case.ops.get(1)
+    } else {
+        case.ops.first()
+    };
+    let seed: Option<u64> = seed_line
         .and_then(|l| l.strip_prefix("SEED "))
         .and_then(|n| n.parse::<u64>().ok());
 
     let result = std::panic::catch_unwind(AssertUnwindSafe(|| {
         let mut builder = tokio::runtime::Builder::new_current_thread();
-        builder.enable_all().start_paused(true);
+        builder.enable_all();
+        if !push_mode {
+            builder.start_paused(true);
+        }
         if let Some(seed) = seed {
             builder.rng_seed(tokio::runtime::RngSeed::from_bytes(&seed.to_le_bytes()));
         }
         let rt = builder.build().expect("runtime");
-        rt.block_on(run_ops(case, Arc::clone(&lines), report_bg));
+        rt.block_on(run_ops(case, Arc::clone(&lines), report_bg, push_mode));
     }));
 
     let mut lines = lines.lock().unwrap_or_else(|e| e.into_inner()).clone();
@@ -225,8 +234,267 @@ enum BgOut {
     Pull(Result<Result<deltio::pubsub_proto::PullResponse, i32>, Fail>),
 }
 
+/// What the scripted HTTP endpoint does with one POST.
+#[derive(Clone, Copy)]
+enum Outcome {
+    Status(u16),
+    Reset,
+    Hang,
+}
+
+impl Outcome {
+    fn text(&self) -> String {
+        match self {
+            Outcome::Status(s) => s.to_string(),
+            Outcome::Reset => "reset".to_string(),
+            Outcome::Hang => "hang".to_string(),
+        }
+    }
+}
+
+/// One POST received by the scripted endpoint.
+struct PostRec {
+    k: usize,
+    body: Vec<u8>,
+    answer: Outcome,
+}
+
+#[derive(Default)]
+struct PushShared {
+    /// Per endpoint `/e<k>`: the outcomes still to be given (empty = 200).
+    scripts: [VecDeque<Outcome>; 10],
+    /// The POSTs received since the previous ROUND / LOOP, in arrival order.
+    posts: Vec<PostRec>,
+}
+
+/// Push mode state: the local endpoint and the HTTP client of the case.
+#[derive(Clone)]
+struct PushMode {
+    port: u16,
+    shared: Arc<Mutex<PushShared>>,
+    client: reqwest::Client,
+}
+
+const EP_PREFIX: &str = "http://ep/e";
+const REFUSED_CANON: &str = "http://refused/";
+const REFUSED_LOCAL: &str = "http://127.0.0.1:1/";
+
+fn single_digit(s: &str) -> bool {
+    s.len() == 1 && s.as_bytes()[0].is_ascii_digit()
+}
+
+impl PushMode {
+    /// Canonical endpoint (case text) to the local URL.
+    fn to_local(&self, endpoint: &str) -> String {
+        if endpoint == REFUSED_CANON {
+            return REFUSED_LOCAL.to_string();
+        }
+        match endpoint.strip_prefix(EP_PREFIX) {
+            Some(k) if single_digit(k) => format!("http://127.0.0.1:{}/e{}", self.port, k),
+            _ => endpoint.to_string(),
+        }
+    }
+
+    /// Local URL back to the canonical endpoint.
+    fn to_canonical(&self, endpoint: &str) -> String {
+        if endpoint == REFUSED_LOCAL {
+            return REFUSED_CANON.to_string();
+        }
+        let local = format!("http://127.0.0.1:{}/e", self.port);
+        match endpoint.strip_prefix(&local[..]) {
+            Some(k) if single_digit(k) => format!("{}{}", EP_PREFIX, k),
+            _ => endpoint.to_string(),
+        }
+    }
+}
+
+/// Translates a printed endpoint back when in push mode.
+fn canon_endpoint(push: Option<&PushMode>, endpoint: &str) -> String {
+    match push {
+        Some(p) => p.to_canonical(endpoint),
+        None => endpoint.to_string(),
+    }
+}
+
+type EpResponse = hyper::Response<http_body_util::Empty<hyper::body::Bytes>>;
+
+/// Serves one request of the scripted endpoint.
+async fn serve_endpoint(
+    shared: Arc<Mutex<PushShared>>,
+    conn: usize,
+    req: hyper::Request<hyper::body::Incoming>,
+) -> Result<EpResponse, std::io::Error> {
+    use http_body_util::BodyExt;
+    let k = req
+        .uri()
+        .path()
+        .strip_prefix("/e")
+        .filter(|k| single_digit(k))
+        .map(|k| (k.as_bytes()[0] - b'0') as usize);
+    let is_post = req.method() == hyper::Method::POST;
+    let body = req
+        .into_body()
+        .collect()
+        .await
+        .map_err(|e| std::io::Error::new(std::io::ErrorKind::Other, e.to_string()))?
+        .to_bytes()
+        .to_vec();
+    let respond = |status: u16| {
+        let mut r = hyper::Response::new(http_body_util::Empty::<hyper::body::Bytes>::new());
+        *r.status_mut() = hyper::StatusCode::from_u16(status)
+            .unwrap_or(hyper::StatusCode::INTERNAL_SERVER_ERROR);
+        Ok::<_, std::io::Error>(r)
+    };
+    let k = match (k, is_post) {
+        (Some(k), true) => k,
+        (Some(_), false) => return respond(405),
+        (None, _) => return respond(404),
+    };
+    let outcome = {
+        let mut sh = shared.lock().unwrap();
+        let outcome = sh.scripts[k].pop_front().unwrap_or(Outcome::Status(200));
+        sh.posts.push(PostRec {
+            k,
+            body,
+            answer: outcome,
+        });
+        outcome
+    };
+    if std::env::var_os("HARNESS_DEBUG").is_some() {
+        eprintln!("push endpoint: POST /e{} on connection {} -> {}", k, conn, outcome.text());
+    }
+    match outcome {
+        Outcome::Status(s) => respond(s),
+        Outcome::Reset => Err(std::io::Error::new(
+            std::io::ErrorKind::ConnectionReset,
+            "scripted reset",
+        )),
+        Outcome::Hang => {
+            std::future::pending::<()>().await;
+            respond(500)
+        }
+    }
+}
+
+/// Starts the scripted endpoint on 127.0.0.1:0 (one task per connection).
+async fn start_push_mode() -> Result<PushMode, Fail> {
+    let listener = tokio::net::TcpListener::bind("127.0.0.1:0")
+        .await
+        .map_err(|e| Fail::Transport(format!("push endpoint bind: {}", e)))?;
+    let port = listener
+        .local_addr()
+        .map_err(|e| Fail::Transport(format!("push endpoint addr: {}", e)))?
+        .port();
+    let shared = Arc::new(Mutex::new(PushShared::default()));
+    let accept_shared = Arc::clone(&shared);
+    if std::env::var_os("HARNESS_DEBUG").is_some() {
+        eprintln!("push endpoint: listening on 127.0.0.1:{}", port);
+    }
+    tokio::spawn(async move {
+        let mut conn = 0usize;
+        loop {
+            let stream = match listener.accept().await {
+                Ok((stream, _)) => stream,
+                Err(_) => {
+                    tokio::time::sleep(Duration::from_millis(10)).await;
+                    continue;
+                }
+            };
+            let shared = Arc::clone(&accept_shared);
+            conn += 1;
+            tokio::spawn(async move {
+                let service = hyper::service::service_fn(move |req| {
+                    serve_endpoint(Arc::clone(&shared), conn, req)
+                });
+                let _ = hyper::server::conn::http1::Builder::new()
+                    .serve_connection(hyper_util::rt::TokioIo::new(stream), service)
+                    .await;
+            });
+        }
+    });
+    Ok(PushMode {
+        port,
+        shared,
+        client: reqwest::Client::new(),
+    })
+}
+
+/// The fields of a push payload that the result lines print.
+struct ParsedPost {
+    subscription: String,
+    message_id: String,
+    ids_equal: bool,
+    /// Already in output form (hex, `-`, or `!<hex of the undecodable string>`).
+    data: String,
+    attrs: Vec<(String, String)>,
+}
+
+fn parse_post(body: &[u8]) -> Option<ParsedPost> {
+    use base64::Engine;
+    let v: serde_json::Value = serde_json::from_slice(body).ok()?;
+    let subscription = v.get("subscription")?.as_str()?.to_string();
+    let m = v.get("message")?;
+    let message_id = m.get("messageId")?.as_str()?.to_string();
+    let raw = m.get("data")?.as_str()?;
+    let ids_equal = m.get("message_id").is_some()
+        && m.get("message_id") == m.get("messageId")
+        && m.get("publish_time").is_some()
+        && m.get("publish_time") == m.get("publishTime");
+    let data = match base64::engine::general_purpose::STANDARD.decode(raw) {
+        Ok(bytes) => hex(&bytes),
+        Err(_) => format!("!{}", hexs(raw)),
+    };
+    let mut attrs: Vec<(String, String)> = match m.get("attributes").and_then(|a| a.as_object()) {
+        None => Vec::new(),
+        Some(o) => o
+            .iter()
+            .map(|(k, v)| {
+                let val = match v.as_str() {
+                    Some(s) => s.to_string(),
+                    None => v.to_string(),
+                };
+                (k.clone(), val)
+            })
+            .collect(),
+    };
+    attrs.sort_by(|a, b| a.0.as_bytes().cmp(b.0.as_bytes()));
+    Some(ParsedPost {
+        subscription,
+        message_id,
+        ids_equal,
+        data,
+        attrs,
+    })
+}
+
+/// One `(..)` group of a ROUND result line.
+fn fmt_post(rec: &PostRec) -> String {
+    match parse_post(&rec.body) {
+        None => format!("{} !badjson {} {}", rec.k, hex(&rec.body), rec.answer.text()),
+        Some(p) => {
+            let mut s = format!(
+                "{} {} {} {} {} {}",
+                rec.k,
+                hexs(&p.subscription),
+                hexs(&p.message_id),
+                if p.ids_equal { 1 } else { 0 },
+                p.data,
+                p.attrs.len()
+            );
+            for (k, v) in &p.attrs {
+                s.push_str(&format!(" {} {}", hexs(k), hexs(v)));
+            }
+            s.push(' ');
+            s.push_str(&rec.answer.text());
+            s
+        }
+    }
+}
+
 struct Ctx {
     app: Arc<Deltio>,
+    /// Push mode state (`MODE push` cases only).
+    push: Option<PushMode>,
     /// Background calls (`BG <id> <op>`), joined by `JOIN <id>`.
     bg: BTreeMap<String, tokio::task::JoinHandle<BgOut>>,
     publisher: PublisherClient<Channel>,
@@ -238,13 +506,18 @@ struct Ctx {
     acks: Vec<String>,
 }
 
-async fn run_ops(case: &Case, lines: Arc<Mutex<Vec<String>>>, report_bg: bool) {
+async fn run_ops(
+    case: &Case,
+    lines: Arc<Mutex<Vec<String>>>,
+    report_bg: bool,
+    push_mode: bool,
+) {
     // Force the lazily initialised EPOCH before anything else happens.
     let _ = deltio::subscriptions::AckDeadline::new(&tokio::time::Instant::now());
 
     let push = |l: String| lines.lock().unwrap().push(l);
 
-    let mut ctx = match start().await {
+    let mut ctx = match start(push_mode).await {
         Ok(ctx) => ctx,
         Err(fail) => {
             if !case.ops.is_empty() {
@@ -258,8 +531,17 @@ async fn run_ops(case: &Case, lines: Arc<Mutex<Vec<String>>>, report_bg: bool) {
         tokio::spawn(async { panic!("test background panic") });
     }
 
+    let op_timing = push_mode && std::env::var_os("HARNESS_DEBUG").is_some();
     for line in &case.ops {
+        let started = std::time::Instant::now();
         let res = exec(&mut ctx, line).await;
+        if op_timing {
+            eprintln!(
+                "op {}: {:?}",
+                line.split(' ').next().unwrap_or(""),
+                started.elapsed()
+            );
+        }
         let stop = res.is_err();
         // BG / CANCEL / YIELD are scheduling directives: the next op starts without
         // letting the runtime settle first.
@@ -287,7 +569,12 @@ async fn run_ops(case: &Case, lines: Arc<Mutex<Vec<String>>>, report_bg: bool) {
 }
 
 /// Starts the in-process server and connects the clients.
-async fn start() -> Result<Ctx, Fail> {
+async fn start(push_mode: bool) -> Result<Ctx, Fail> {
+    let push = if push_mode {
+        Some(start_push_mode().await?)
+    } else {
+        None
+    };
     let app = Deltio::new();
     let (tx, rx) =
         mpsc::unbounded_channel::<Result<tokio::io::DuplexStream, std::io::Error>>();
@@ -320,6 +607,7 @@ async fn start() -> Result<Ctx, Fail> {
     };
     Ok(Ctx {
         app: Arc::new(app),
+        push,
         bg: BTreeMap::new(),
         publisher: PublisherClient::new(channel.clone()),
         subscriber: SubscriberClient::new(channel),
@@ -374,10 +662,10 @@ fn bad(msg: String) -> Fail {
     Fail::Panic(format!("bad op: {}", msg))
 }
 
-fn fmt_subscription(s: &Subscription) -> String {
+fn fmt_subscription(s: &Subscription, push: Option<&PushMode>) -> String {
     let endpoint = match &s.push_config {
         None => "~".to_string(),
-        Some(pc) => hexs(&pc.push_endpoint),
+        Some(pc) => hexs(&canon_endpoint(push, &pc.push_endpoint)),
     };
     format!(
         "{} {} {} {}",
@@ -516,6 +804,7 @@ async fn exec(ctx: &mut Ctx, line: &str) -> OpResult {
             } else {
                 let mut sub = Ctx {
                     app: Arc::clone(&ctx.app),
+                    push: ctx.push.clone(),
                     bg: BTreeMap::new(),
                     publisher: ctx.publisher.clone(),
                     subscriber: ctx.subscriber.clone(),
@@ -567,6 +856,128 @@ async fn exec(ctx: &mut Ctx, line: &str) -> OpResult {
         "Q" => {
             t.end().map_err(bad)?;
             Ok("Q".to_string())
+        }
+        "MODE" => {
+            let mode = t.next().map_err(bad)?;
+            t.end().map_err(bad)?;
+            if mode != "push" || ctx.push.is_none() {
+                return Err(bad("MODE push must be the first op line".into()));
+            }
+            Ok("MODE".to_string())
+        }
+        "EP" => {
+            let push = ctx
+                .push
+                .as_ref()
+                .ok_or_else(|| bad("EP: push mode only".into()))?;
+            let k: usize = t.num().map_err(bad)?;
+            if k > 9 {
+                return Err(bad(format!("EP: no endpoint {}", k)));
+            }
+            let n: usize = t.num().map_err(bad)?;
+            let mut outcomes = Vec::with_capacity(n);
+            for _ in 0..n {
+                let tok = t.next().map_err(bad)?;
+                outcomes.push(match tok {
+                    "reset" => Outcome::Reset,
+                    "hang" => Outcome::Hang,
+                    _ => match tok.parse::<u16>() {
+                        // hyper cannot send a 1xx status as the final answer (it would
+                        // put a 500 on the wire), so those are not accepted.
+                        Ok(s) if (200..1000).contains(&s) => Outcome::Status(s),
+                        _ => return Err(bad(format!("EP: bad outcome '{}'", tok))),
+                    },
+                });
+            }
+            t.end().map_err(bad)?;
+            push.shared.lock().unwrap().scripts[k].extend(outcomes);
+            Ok("EP".to_string())
+        }
+        "ROUND" => {
+            t.end().map_err(bad)?;
+            let push = ctx
+                .push
+                .clone()
+                .ok_or_else(|| bad("ROUND: push mode only".into()))?;
+            let (_, manager, registry) = ctx.app.verif_parts();
+            let mut entries: Vec<(String, _, _)> = registry
+                .entries()
+                .into_iter()
+                .map(|(name, pc)| (name.to_string(), name, pc))
+                .collect();
+            entries.sort_by(|a, b| a.0.as_bytes().cmp(b.0.as_bytes()));
+            for (_, name, push_config) in entries {
+                let subscription = match manager.get_subscription(&name) {
+                    Ok(s) => s,
+                    Err(_) => continue,
+                };
+                // A pass that does not finish (a `hang` outcome) is abandoned.
+                let _ = tokio::time::timeout(
+                    Duration::from_secs(20),
+                    deltio::push::push_loop::verif_pull_and_dispatch(
+                        subscription,
+                        push_config,
+                        push.client.clone(),
+                    ),
+                )
+                .await;
+            }
+            for _ in 0..16 {
+                tokio::task::yield_now().await;
+            }
+            let posts = std::mem::take(&mut push.shared.lock().unwrap().posts);
+            let mut s = format!("ROUND {}", posts.len());
+            for rec in &posts {
+                s.push(' ');
+                s.push_str(&fmt_post(rec));
+            }
+            Ok(s)
+        }
+        "LOOP" => {
+            let interval_ms: u64 = t.num().map_err(bad)?;
+            let rounds: u64 = t.num().map_err(bad)?;
+            t.end().map_err(bad)?;
+            let push = ctx
+                .push
+                .clone()
+                .ok_or_else(|| bad("LOOP: push mode only".into()))?;
+            let lp = ctx.app.push_loop(Duration::from_millis(interval_ms));
+            let h = tokio::spawn(lp.run());
+            tokio::time::sleep(Duration::from_millis(
+                interval_ms.saturating_mul(rounds).saturating_add(interval_ms / 2),
+            ))
+            .await;
+            h.abort();
+            for _ in 0..16 {
+                tokio::task::yield_now().await;
+            }
+            let posts = std::mem::take(&mut push.shared.lock().unwrap().posts);
+            // per subscription: number of POSTs and the distinct message ids
+            let mut groups: BTreeMap<String, (usize, BTreeSet<String>)> = BTreeMap::new();
+            let mut badjson = 0usize;
+            for rec in &posts {
+                match parse_post(&rec.body) {
+                    None => badjson += 1,
+                    Some(p) => {
+                        let g = groups.entry(p.subscription).or_default();
+                        g.0 += 1;
+                        g.1.insert(p.message_id);
+                    }
+                }
+            }
+            let n = groups.len() + if badjson > 0 { 1 } else { 0 };
+            let mut s = format!("LOOP {}", n);
+            for (name, (count, ids)) in &groups {
+                s.push_str(&format!(" {} {} {}", hexs(name), count, ids.len()));
+                for id in ids {
+                    s.push(' ');
+                    s.push_str(&hexs(id));
+                }
+            }
+            if badjson > 0 {
+                s.push_str(&format!(" !badjson {} 0", badjson));
+            }
+            Ok(s)
         }
         "SEED" => {
             let _: u64 = t.num().map_err(bad)?;
@@ -663,8 +1074,12 @@ async fn exec(ctx: &mut Ctx, line: &str) -> OpResult {
             let push_config = if endpoint_tok == "~" {
                 None
             } else {
+                let given = crate::util::unhexs(endpoint_tok).map_err(bad)?;
                 Some(PushConfig {
-                    push_endpoint: crate::util::unhexs(endpoint_tok).map_err(bad)?,
+                    push_endpoint: match &ctx.push {
+                        Some(p) => p.to_local(&given),
+                        None => given,
+                    },
                     attributes: HashMap::new(),
                     authentication_method: None,
                 })
@@ -678,7 +1093,7 @@ async fn exec(ctx: &mut Ctx, line: &str) -> OpResult {
                 ..Default::default()
             };
             Ok(match call(ctx.subscriber.create_subscription(req)).await? {
-                Ok(sub) => format!("CS 0 {}", fmt_subscription(&sub)),
+                Ok(sub) => format!("CS 0 {}", fmt_subscription(&sub, ctx.push.as_ref())),
                 Err(code) => format!("CS {}", code),
             })
         }
@@ -687,7 +1102,7 @@ async fn exec(ctx: &mut Ctx, line: &str) -> OpResult {
             t.end().map_err(bad)?;
             let req = GetSubscriptionRequest { subscription };
             Ok(match call(ctx.subscriber.get_subscription(req)).await? {
-                Ok(sub) => format!("GS 0 {}", fmt_subscription(&sub)),
+                Ok(sub) => format!("GS 0 {}", fmt_subscription(&sub, ctx.push.as_ref())),
                 Err(code) => format!("GS {}", code),
             })
         }
@@ -715,7 +1130,7 @@ async fn exec(ctx: &mut Ctx, line: &str) -> OpResult {
                     let mut s = format!("LS 0 {}", resp.subscriptions.len());
                     for sub in &resp.subscriptions {
                         s.push(' ');
-                        s.push_str(&fmt_subscription(sub));
+                        s.push_str(&fmt_subscription(sub, ctx.push.as_ref()));
                     }
                     s.push(' ');
                     s.push_str(&hexs(&resp.next_page_token));
@@ -835,7 +1250,12 @@ async fn exec(ctx: &mut Ctx, line: &str) -> OpResult {
         "ADV" => {
             let ns: u64 = t.num().map_err(bad)?;
             t.end().map_err(bad)?;
-            tokio::time::advance(Duration::from_nanos(ns)).await;
+            if ctx.push.is_some() {
+                // real clock in push mode
+                tokio::time::sleep(Duration::from_nanos(ns)).await;
+            } else {
+                tokio::time::advance(Duration::from_nanos(ns)).await;
+            }
             Ok("ADV".to_string())
         }
         "STATS" => {
@@ -861,13 +1281,117 @@ async fn exec(ctx: &mut Ctx, line: &str) -> OpResult {
                 )),
             }
         }
+        "XC" => {
+            // XC <kind> <k> <y> <fill> <args..>: a library-level call whose future is polled k times
+            // (y yields in between) and then dropped, with the target actor's mailbox pre-filled by
+            // `fill` pending requests (each polled once, so it sits in the mailbox or waits for room).
+            use deltio::subscriptions::{AckId, SubscriptionInfo};
+            use deltio::topics::{TopicMessage, TopicName};
+            use std::pin::Pin;
+            type Fut = Pin<Box<dyn Future<Output = ()> + Send>>;
+            let kind = t.next().map_err(bad)?.to_string();
+            let k: usize = t.num().map_err(bad)?;
+            let y: usize = t.num().map_err(bad)?;
+            let fill: usize = t.num().map_err(bad)?;
+            let (tm, sm, _) = ctx.app.verif_parts();
+            let get_topic = |n: &str| TopicName::try_parse(n).and_then(|n| tm.get_topic(&n).ok());
+            let get_sub = |n: &str| SubscriptionName::try_parse(n).and_then(|n| sm.get_subscription(&n).ok());
+            // what to call, and whose mailbox to saturate
+            let (target, fill_topic, fill_sub): (Fut, _, _) = match kind.as_str() {
+                "CS" => {
+                    let sub_name = t.str().map_err(bad)?;
+                    let topic_name = t.str().map_err(bad)?;
+                    let ackdl: u64 = t.num().map_err(bad)?;
+                    let topic = get_topic(&topic_name).ok_or_else(|| bad("XC: no such topic".into()))?;
+                    let name = SubscriptionName::try_parse(&sub_name).ok_or_else(|| bad("XC: bad name".into()))?;
+                    let info = SubscriptionInfo::new(name, Duration::from_secs(ackdl.max(10)), None);
+                    let sm2 = Arc::clone(&sm);
+                    let topic2 = Arc::clone(&topic);
+                    (Box::pin(async move { let _ = sm2.create_subscription(info, topic2).await; }), Some(topic), None)
+                }
+                "PUB" | "DT" => {
+                    let topic_name = t.str().map_err(bad)?;
+                    let topic = get_topic(&topic_name).ok_or_else(|| bad("XC: no such topic".into()))?;
+                    let topic2 = Arc::clone(&topic);
+                    let fut: Fut = if kind == "PUB" {
+                        let data = t.bytes().map_err(bad)?;
+                        Box::pin(async move {
+                            let _ = topic2.publish_messages(vec![TopicMessage::new(data.into(), None)]).await;
+                        })
+                    } else {
+                        Box::pin(async move { let _ = topic2.delete().await; })
+                    };
+                    (fut, Some(topic), None)
+                }
+                "DS" | "PULL" | "ACK" => {
+                    let sub_name = t.str().map_err(bad)?;
+                    let sub = get_sub(&sub_name).ok_or_else(|| bad("XC: no such subscription".into()))?;
+                    let sub2 = Arc::clone(&sub);
+                    let fut: Fut = match kind.as_str() {
+                        "DS" => Box::pin(async move { let _ = sub2.delete().await; }),
+                        "PULL" => {
+                            let max: u16 = t.num().map_err(bad)?;
+                            Box::pin(async move { let _ = sub2.pull_messages(max).await; })
+                        }
+                        _ => {
+                            let id = t.str().map_err(bad)?;
+                            let ack = AckId::parse(&id).map_err(|_| bad("XC: bad ack id".into()))?;
+                            Box::pin(async move { let _ = sub2.acknowledge_messages(vec![ack]).await; })
+                        }
+                    };
+                    (fut, None, Some(sub))
+                }
+                other => return Err(bad(format!("XC: unknown kind {}", other))),
+            };
+            t.end().map_err(bad)?;
+            let mut fillers: Vec<Fut> = Vec::new();
+            for _ in 0..fill {
+                if let Some(topic) = &fill_topic {
+                    let topic = Arc::clone(topic);
+                    fillers.push(Box::pin(async move {
+                        let _ = topic.list_subscriptions(deltio::paging::Paging::start(1)).await;
+                    }));
+                }
+                if let Some(sub) = &fill_sub {
+                    let sub = Arc::clone(sub);
+                    fillers.push(Box::pin(async move { let _ = sub.get_stats().await; }));
+                }
+            }
+            for f in fillers.iter_mut() {
+                let _ = futures::poll!(f.as_mut());
+            }
+            let mut target = target;
+            let mut done = false;
+            for i in 0..k {
+                if futures::poll!(target.as_mut()).is_ready() {
+                    done = true;
+                    break;
+                }
+                if i + 1 < k {
+                    for _ in 0..y {
+                        tokio::task::yield_now().await;
+                    }
+                }
+            }
+            drop(target);
+            // the fillers are ordinary requests: let them finish
+            for mut f in fillers {
+                let _ = tokio::time::timeout(HANG_AFTER, f.as_mut()).await;
+            }
+            Ok(format!("XC {}", if done { "done" } else { "dropped" }))
+        }
         "REG" => {
             t.end().map_err(bad)?;
             let (_, _, registry) = ctx.app.verif_parts();
             let mut entries: Vec<(String, String)> = registry
                 .entries()
                 .into_iter()
-                .map(|(name, pc)| (name.to_string(), pc.endpoint))
+                .map(|(name, pc)| {
+                    (
+                        name.to_string(),
+                        canon_endpoint(ctx.push.as_ref(), &pc.endpoint),
+                    )
+                })
                 .collect();
             entries.sort_by(|a, b| a.0.as_bytes().cmp(b.0.as_bytes()));
             let mut s = format!("REG {}", entries.len());
